@@ -73,11 +73,13 @@ def build(sd, idx):
     qunit = r.choice(["molecule", "molecule", "molecule", "fmol", "nmol"]) if fam not in ("integers", "around-100") else "molecule"
     qs = float(si.QUANTITY[qunit])
     system = st.RDSystem(net, space, state=st.UnitArray([x / qs for x in state], qunit))
-    sseed = r.randrange(2 ** 31)
+    sseed = r.choice([0, 0, 1, 2 ** 31 - 1, 2 ** 32 - 1]) if r.random() < 0.2 else r.randrange(2 ** 31)   # 0 is a valid explicit seed
     script = st.RDScript(system, t_sample=[0, 1], time_step=0.1, sampling_policy="on_t_sample", rng_seed=sseed,
                          init_state_processing=mode)
     # the real-valued amounts as the engine receives them (molecules), cross-checked against the description
     recv = [float(x) for x in system.state.convert("molecule").value]
+    if script.rng_seed != sseed:
+        raise AssertionError("RDScript does not keep the seed it was given: gave %r, holds %r" % (sseed, script.rng_seed))
     return kind_, mode, fam, S, n, sp, state, recv, script, qunit
 
 
@@ -109,7 +111,11 @@ def run_case(case):
     use_repo()
     engines.install()
     sd, idx = case["seed"], case["idx"]
-    kind_, mode, fam, S, n, sp, state, recv, script, qunit = build(sd, idx)
+    try:
+        kind_, mode, fam, S, n, sp, state, recv, script, qunit = build(sd, idx)
+    except AssertionError as e:
+        return {"key": chash([idx]), "nontrivial": False, "counts": {}, "obs": [], "sample": None,
+                "bad": [{"what": "the script does not keep the seed it was given", "error": str(e), "case": {"seed": sd, "idx": idx}}]}
     ctx = {"case": {"seed": sd, "idx": idx}, "engine": kind_, "mode": mode, "family": fam, "S": S, "n": n, "space": sp}
     bad, counts, obs = [], {}, []
 
@@ -120,7 +126,13 @@ def run_case(case):
             bad.append({"what": "state handed to the engine is not the described amount", "got": a, "expected": b, **ctx})
             break
     t, x = setup_and_read(kind_, script, S, n)
-    t2, x2 = setup_and_read(kind_, script, S, n)
+    # "for a given seed, reproducible": the second run uses a script built afresh from the same arguments
+    try:
+        script_again = build(sd, idx)[8]
+    except AssertionError as e:
+        bad.append({"what": "the script does not keep the seed it was given", "error": str(e), **ctx})
+        script_again = script
+    t2, x2 = setup_and_read(kind_, script_again, S, n)
     cnt("setups", 2)
     cnt("mode_" + mode)
     cnt("engine_" + kind_)
